@@ -93,3 +93,16 @@ impl<T> It<(usize, (T, Option<usize>))> {
             r.seq().len() == self.seq().len(), r.forever().is_none(), r.announced() == self.announced(), r.trusted() == self.trusted(),
     { unimplemented!() }
 }
+// the internally allocated output of the Vec / slice / array fast paths (tea-core backends_impl/vec.rs):
+// `O::uninit(len)` + `O::uninit_ref_mut(&mut out)` + `out.assume_init()`.  The model identifies the uninitialised container
+// with its write buffer (R12: `O::uninit(len)` -> `uninit_buf(len)`, `O::uninit_ref_mut(&mut out)` -> `&mut out`,
+// `out.assume_init()` -> `assume_init_buf(out)`); assume_init is sound only when every slot has been written.
+#[verifier::external_body]
+pub fn uninit_buf<O: Vec1<OT>, OT>(len: usize) -> (b: O::Buf)
+    ensures buf_fresh(&b, len as nat),
+{ unimplemented!() }
+#[verifier::external_body]
+pub fn assume_init_buf<O: Vec1<OT>, OT>(b: O::Buf) -> (r: O)
+    requires buf_full(b.written(), b.cap()),                    // #C10 assume_init_all_slots_written
+    ensures r.oview().len() == b.cap(), forall|i: int| 0 <= i < b.cap() ==> #[trigger] r.oview()[i] == b.written()[i],
+{ unimplemented!() }
